@@ -27,6 +27,8 @@ inductive Err
   | dupName    -- UniqueIndexDuplicateError on things.name
   | dupCode    -- UniqueIndexDuplicateError on things.code
   | nonnull    -- "index on things.name does not allow null or empty values"
+  | invalidName   -- the parent entity strategy refuses the name (reported on the persist context's bucket)
+  | invalidRoles  -- the parent entity strategy refuses the roles (more than three)
   deriving DecidableEq, Repr
 
 /-- which store an operation is issued through -/
